@@ -26,15 +26,22 @@ MB(m)   == << Op("MSgate", <<Q(4, 3), A0, Q(2, 1), Q(4, 5)>>, <<m>>), Op("MSgate
 NonG(m) == << Op("Kgate", <<Z(1)>>, <<m>>), Op("Kgate", <<Z(3)>>, <<m>>), OpH("Kgate", <<Z(1)>>, <<m>>),
               Op("Vgate", <<One>>, <<m>>), Op("Vgate", <<Q(-1, 1)>>, <<m>>), OpH("Vgate", <<Q(1, 2)>>, <<m>>) >>
 Two1(m1, m2) == << Op("BSgate", <<a345, A0>>, <<m1, m2>>), OpH("BSgate", <<a345, A0>>, <<m1, m2>>), Op("CXgate", <<One>>, <<m1, m2>>) >>
+\* a short list of one-mode operations for the "sandwich" programs (a two-mode gate, one operation on either of its modes, a two-mode gate)
+Small1(m) == << Op("Rgate", <<a345>>, <<m>>), Op("Sgate", <<Q(4, 3), A0>>, <<m>>), Op("Dgate", <<Q(1, 2), A0>>, <<m>>),
+                Op("LossChannel", <<Q(4, 5)>>, <<m>>), Op("Coherent", <<Q(1, 2), a345>>, <<m>>) >>
 RECURSIVE CatM(_, _)
 CatM(F(_), n) == IF n = 0 THEN << >> ELSE CatM(F, n - 1) \o F(n - 1)
 Alphabet == CASE AlphaId = "g" -> CatM(One1, NMod) \o (IF NMod >= 2 THEN Two1(0, 1) \o Two1(1, 0) ELSE << >>)
               [] AlphaId = "h" -> CatM(One1, NMod) \o CatM(NonG, NMod) \o (IF NMod >= 2 THEN Two1(0, 1) \o Two1(1, 0) ELSE << >>)
               [] AlphaId = "m" -> CatM(MB, NMod) \o << Op("Rgate", <<a345>>, <<0>>), Op("Sgate", <<Q(4, 3), A0>>, <<0>>), Op("LossChannel", <<Q(4, 5)>>, <<0>>),
                                                       Op("Dgate", <<Q(1, 2), A0>>, <<0>>), OpH("Rgate", <<a345>>, <<0>>) >>
+              [] AlphaId = "s" -> CatM(Small1, NMod) \o Two1(0, 1) \o Two1(1, 0)
               [] AlphaId = "n" -> CatM(NonG, NMod) \o << Op("Rgate", <<a345>>, <<0>>), Op("Xgate", <<Q(1, 2)>>, <<0>>), Op("Sgate", <<Q(4, 3), A0>>, <<0>>) >>
 
-Init == /\ \E f \in [1 .. Len0 -> 1 .. Len(Alphabet)] : input = [i \in 1 .. Len0 |-> Alphabet[f[i]]]
+RangeOf(q) == {q[i] : i \in DOMAIN q}
+Init == /\ IF AlphaId = "s"
+           THEN \E a, c \in RangeOf(Two1(0, 1) \o Two1(1, 0)) : \E b \in RangeOf(CatM(Small1, NMod)) : input = <<a, b, c>>
+           ELSE \E f \in [1 .. Len0 -> 1 .. Len(Alphabet)] : input = [i \in 1 .. Len0 |-> Alphabet[f[i]]]
         /\ circ = input
 \* positions i < j are neighbours on their wire: same single mode and no command between them touches it
 Neighbours(i, j) == /\ i < j /\ circ[i].modes = circ[j].modes /\ Len(circ[i].modes) = 1
